@@ -370,6 +370,12 @@ func mergeVals(c *Term, a, b Val) (Val, bool) {
 			if py, ok2 := b.(*PtrV); ok2 && py.Kind == PHeap && py.Idx == nil && py.Key == typeKey(py.Elem) {
 				return Ite(c, x, py.Base), true
 			}
+			if py, ok2 := b.(*PtrV); ok2 && py.Kind == PHeap && x.IsConst && x.Sort.Kind == SInt && x.Int.Sign() == 0 {
+				// nil merged with an interior/element pointer: nil is the pointer with base 0
+				n := *py
+				n.Base = Ite(c, IntC(0), py.Base)
+				return &n, true
+			}
 			return nil, false
 		}
 		return Ite(c, x, y), true
@@ -444,6 +450,11 @@ func mergeVals(c *Term, a, b Val) (Val, bool) {
 		case *Term:
 			if x.Kind == PHeap && x.Idx == nil && x.Key == typeKey(x.Elem) {
 				return Ite(c, x.Base, y), true
+			}
+			if x.Kind == PHeap && y.IsConst && y.Sort.Kind == SInt && y.Int.Sign() == 0 {
+				n := *x
+				n.Base = Ite(c, x.Base, IntC(0))
+				return &n, true
 			}
 		}
 		return nil, false
